@@ -17,6 +17,21 @@ func selftest(tier string) (killed, total int, notes []string) {
 		mutCountVisits:       "substitute",
 		mutDupsKeepFirst:     "remove-duplicates",
 		mutReduceFromEndArgs: "reduce",
+		mutTailAsElement:     "maplist",
+		mutMapFirstLength:    "map",
+		mutMapcanKeepsNil:    "mapcan",
+		mutXorKeyFirstOnly:   "set-exclusive-or",
+		mutXorConsumes:       "set-exclusive-or",
+		mutAdjoinIgnoresTest: "pushnew",
+		mutAdjoinTestSwapped: "adjoin",
+		mutSelfForward:       "replace-self",
+		mutEltEndIsNil:       "elt",
+		mutSubseqClamps:      "subseq",
+		mutMapIntoClears:     "map-into",
+		mutNreverseStorage:   "nreverse",
+		mutMakeSeqOffByOne:   "make-sequence",
+		mutQuant3First2:      "every",
+		mutQuantBehindFill:   "some",
 	}
 	for mut := mutNone + 1; mut < mutLast; mut++ {
 		total++
@@ -37,7 +52,17 @@ func selftest(tier string) (killed, total int, notes []string) {
 					panic(err)
 				}
 				wr, wm := expect(c, mutNone), expect(c, mut)
-				if wr.check == nil && wr.truthy == nil && wm.check == nil && wr.show != wm.show {
+				switch {
+				case wr.truthy != nil && wm.truthy != nil:
+					if *wr.truthy != *wm.truthy {
+						witness = fmt.Sprintf("%s: reference %v, mutant %v", c.form(), *wr.truthy, *wm.truthy)
+						panic(stop{})
+					}
+				case wr.mustErr != wm.mustErr:
+					witness = fmt.Sprintf("%s: reference %s, mutant %s", c.form(), wr.desc, wm.desc)
+					panic(stop{})
+				case wr.truthy == nil && wm.truthy == nil && wr.show != "" && wm.show != "" && wr.show != wm.show:
+					// (wants with an acceptance function carry a representative rendering in show)
 					witness = fmt.Sprintf("%s: reference %s, mutant %s", c.form(), wr.show, wm.show)
 					panic(stop{})
 				}
